@@ -177,6 +177,16 @@ def record_one(spec):
     beh.append({"e": "C", "spell": spec.get("spell", "?"), "large": large, "valid": True, "text": list(t_rgb),
                 "bg": list(b_rgb), "raised": "", "readable": readable, "comp": spec.get("comp") or {"kind": "none"},
                 "cssOverride": css_override})
+    # the pair object itself may have travelled before it is used: through pickle (multiprocessing, caches) or copy.deepcopy -
+    # a copy of a pair is that pair (the C event above describes the pair as constructed)
+    if spec.get("copy"):
+        try:
+            import pickle, copy as _copy
+            pair = pickle.loads(pickle.dumps(pair)) if spec["copy"] == "pickle" else _copy.deepcopy(pair) if spec["copy"] == "deepcopy" else _copy.copy(pair)
+        except Exception as ex:
+            beh.append({"e": "F", "mode": 1, "vr": False, "show": False, "raised": "copy:" + type(ex).__name__, "ok": False, "okbool": False, "shape": "other",
+                        "css": [], "lib": [], "de4": -1, "wit": [], "witDe4": -1, "witKind": "none", "chain": [], "haveChain": False, "ref": []})
+            return beh
     # a history of other calls in the same process before this pair's runs (not recorded: what matters is that they happened)
     for (pt, pb, plg, pm, pvr) in spec.get("prelude", []):
         try:
